@@ -37,9 +37,34 @@ PROPS = {
         "rule": "6 fixed scenarios (create+first commit, rotation, head/tail truncation deleting files, close/reopen/append, reset of the empty first segment, oversized batch/truncate to empty) + seeded random WAL workloads (segment sizes 512..8192, appends, waits, truncations, close/reopen) run on the production fs.FS + BoltMetaDB under strace; fso: seeded fs-layer call sequences (create/openwriter/write/sync/close/delete/meta init/commit) compared event by event with the model's fs_trace; distinct = distinct input lines",
     },
     "C20": {
-        "streams": [S("seqapi", 150, 3000, vm=(12, 120), vm_maxlen=6000)],
+        "streams": [S("seqapi", 150, 3000, vm=(5, 100), vm_maxlen=5000)],
         "trusted": [GO, "go/ast translator harness/cmd/wh/facts.go (call-site scan) and the compiled MetricDefinitions tables"],
         "assumptions": ["segment_rotations has no specification-level total (it is compared with the model only)"],
         "rule": "seeded op sequences (stores incl. invalid shapes, deletes at all positions, reads, stable ops, reopen) over 7 segment sizes, on crashfs and on the real fs+BoltDB; metrics summary compared with the model after every M op and with independently computed true totals; distinct = distinct input lines",
     },
+    "C05": {
+        "streams": [S("seqapi", 250, 6000, vm=(6, 120), vm_maxlen=5000)],
+        "selftests": [{"name": "crash_refinement_stmt (crash-free histories included)", "args": [], "n": (1500, 40000)}],
+        "trusted": [GO, BBOLT],
+        "assumptions": ["indexes in [1, 2^64-2], one batch < 1 GiB, segment size < 1 GiB (no 32/64-bit wrap)", "rotation is awaited right after each StoreLogs (W barrier)"],
+        "rule": "seeded op sequences (valid and invalid appends, deletes at every position class, reads around the boundaries, stable ops, reopen) over 7 segment sizes down to one entry per segment, on crashfs and on the real fs + BoltDB; every result, first/last, every entry, metrics, persisted metadata, directory listing and the I/O trace compared with the model; independent reference-log oracle; distinct = distinct input lines",
+    },
+    "C01": {
+        "streams": [S("crash", 250, 6000, vm=(10, 100), vm_maxlen=8000)],
+        "selftests": [{"name": "crash_refinement_stmt", "args": [], "n": (1500, 40000)}],
+        "trusted": [GO, BBOLT, "segment-level recovery law (a torn batch is recovered as absent, a complete one as present) proved in Seg/RecoverFacts.v under the explicit no-CRC-collision hypothesis"],
+        "assumptions": ["8-byte chunk granularity of torn writes (PSOW, README)", "bbolt commits are atomic and durable"],
+        "rule": "seeded workloads; power loss after a random I/O action (never inside a run of deletions), adversary keeps/drops every non-durable file and every pending batch independently, nested second crash in 50%; then Open, audit, usability probe, clean reopen; oracle = acknowledged entries survive and the recovered log is exactly the acknowledged or the in-flight state; distinct = distinct input lines",
+    },
+    "C10": {
+        "streams": [S("faults", 250, 6000, vm=(10, 100), vm_maxlen=8000)],
+        "selftests": [{"name": "fault_safety_stmt", "args": ["f"], "n": (1500, 40000)}],
+        "trusted": [GO, BBOLT],
+        "assumptions": ["faults are transient single failures of one VFS/MetaStore call with no partial effect (a failed write writes nothing; a failed fsync leaves the data written)", "deletions are exempt from fault injection (Go map order makes their order nondeterministic)", "I/O error + restart + later power loss is outside the model (adopted unsynced data is treated as synced)"],
+        "rule": "seeded workloads with a fault armed before 1/3 of the calls (the k-th action from then fails, k in 0..4), in-process audits, restart, reopen, usability probe; oracle = acknowledged entries readable and unchanged in-process and after reopen; distinct = distinct input lines",
+    },
 }
+for _p in ("C02", "C03", "C04", "C13"):
+    PROPS[_p] = dict(PROPS["C01"])
+PROPS["C08"] = dict(PROPS["C05"])
+PROPS["C08"]["streams"] = [S("seqapi", 200, 5000, vm=(5, 100), vm_maxlen=5000), S("crash", 120, 3000, vm=(5, 50), vm_maxlen=8000)]
